@@ -278,11 +278,41 @@ pub fn check(thorough: bool, _seed: u64) -> Check {
         classes: vec![("knot_x_zero", false), ("knot_x_negative", false), ("knot_x_positive", false), ("scaled_by_2^-60_or_2^40", false), ("knot_on_or_next_to_the_unshifted_antiderivative", false)],
         bounds: json!({"degrees": "0..7", "knot.x": "{1e50,-1e60,1e76,1e-50,-1e-70,3e37} (degree 7: only 3e37, its result type forms x^8)", "coefficients": "c_i = (i+1) a_i / x^(i+1), a_i in {0,1,-2.5,7} (zero when not a normal number): every term of F(knot.x) is of ordinary size", "knot.y": "{0,1,-3.5}"}),
     };
+    // knots whose abscissa is next to (not on) a non-zero root of the unshifted antiderivative F0: F0(knot.x) is small by cancellation
+    let near_roots: Vec<(Vec<f64>, f64)> = vec![
+        (vec![1.0, 1.0], -2.0),                 // F0 = x + x^2/2, root -2
+        (vec![2.0, -3.0], 4.0 / 3.0),           // F0 = 2x - 1.5x^2, root 4/3
+        (vec![1.0, 0.0, -3.0], 1.0),            // F0 = x - x^3, roots +-1
+        (vec![1.0, 0.0, -3.0], -1.0),
+        (vec![-6.0, 0.0, 0.0, 4.0], -(6.0f64.powf(0.25))), // F0 = -6x + x^4, root -6^(1/4)... (irrational: the float next to it)
+        (vec![0.0, -8.0, 0.0, 0.0, 5.0], -2.0f64.sqrt().sqrt() * 2.0f64.powf(0.5)), // F0 = -4x^2 + x^5
+        (vec![3.0, 2.0, 1.0], -1.5),            // F0 = 3x + x^2 + x^3/3 (no nice root: ordinary point as a control)
+    ];
+    let nnr = near_roots.len();
+    let roots_ph = Phase {
+        name: "knots-next-to-roots-of-the-antiderivative",
+        units: nnr,
+        split: 0,
+        body: Box::new(move |unit, cx| {
+            let (c, root) = &near_roots[unit];
+            let delta = [0.0, 1e-9, -1e-9, 1e-12, -3e-11, 2.220446049250313e-16, 1e-7][cx.choose(7)];
+            let sc = [1.0, 8.673617379884035e-19, 3e6][cx.choose(3)];
+            let c: Vec<f64> = c.iter().map(|v| v * sc).collect();
+            let knot = Knot { x: root * (1.0 + delta), y: [0.0, 3.0, -0.25][cx.choose(3)] * sc };
+            cx.nontrivial();
+            if cx.sampling() {
+                cx.sample(json!({"coefficients": fjs(&c), "knot": [fj(knot.x), fj(knot.y)]}));
+            }
+            by_degree7!(c.len() - 1, knots_leaf(&c, knot, cx))
+        }),
+        classes: vec![("knot_x_zero", false), ("knot_x_negative", false), ("knot_x_positive", false), ("scaled_by_2^-60_or_2^40", false), ("knot_on_or_next_to_the_unshifted_antiderivative", false)],
+        bounds: json!({"polynomials": "1+x, 2-3x, 1-3x^2, -6+4x^3, -8x+5x^4, 3+2x+x^2 (x scales 1, 2^-60, 3e6)", "knot.x": "root of the antiderivative times (1+d), d in {0, +-1e-9, 1e-12, -3e-11, 2^-52, 1e-7}", "knot.y": "{0,3,-0.25} (scaled)"}),
+    };
     Check {
         id: "C07",
         rule: "choice tree: (degree, knot) resp. (degree, (a,b)) unit x one coefficient per lane; each leaf runs the real indefinite / integral / derivative / Segment::integral; non-trivial = >=2 non-zero coefficients (and knot.x not in {0,2} in the first phase)".into(),
         assumptions: vec!["one ulp = distance to the neighbouring float of the returned coefficient".into()],
-        phases: vec![knots, definite, extreme],
+        phases: vec![knots, definite, extreme, roots_ph],
         extra: Default::default(),
         controls: vec![],
     }
